@@ -175,8 +175,16 @@ func main() {
 				var obs gqlgen.Observed
 				if strings.HasPrefix(sc.name, "rerunner") {
 					obs = gqlgen.ExecRerunner(b, text, q.Vars, sc.s)
+				} else if sc.name == "fifo" {
+					obs = gqlgen.ExecTwice(b, text, q.Vars, sc.s)
 				} else {
 					obs = gqlgen.Exec(b, text, q.Vars, sc.s)
+				}
+				if obs.Mutated != "" {
+					fail("execute-modifies-parsed-query", fmt.Sprintf("%s: %s\nquery: %s", fmt.Sprintf("modes#%d/%s", mi, sc.name), obs.Mutated, text), c)
+				}
+				if obs.Reexec != "" {
+					fail("re-execution-differs", fmt.Sprintf("modes#%d/%s: first %s\n%s\nquery: %s", mi, sc.name, js(obs.JSON), obs.Reexec, text), c)
 				}
 				tag := fmt.Sprintf("modes#%d/%s", mi, sc.name)
 				if obs.Stage == "harness" {
